@@ -6,14 +6,16 @@
    bytes its handler serves) never changes while it exists; every listed segment URI, every part URI of
    a listed or open segment and the init URI of a stream that has an init resolve to their handlers
    (c05_listed_uris_resolve, through the window and part-number invariants: an eviction unregisters only
-   keys of the evicted segment). Established by the correspondence run (trace line 5 = the complete
+   keys of the evicted segment); and conversely nothing else resolves (c05_only_listed_uris_resolve: in
+   every reachable state a resolving key is the index, a playlist, an existing init, a listed
+   segment, a listed / open part or the preload hint). Established by the correspondence run (trace line 5 = the complete
    key set of the real table after every rotation) and the oracle only: status 200 and content type,
    byte equality of a segment with the concatenation of its parts (storage: C17), fragment sequence
    numbers, slow readers. *)
 From Coq Require Import List ZArith Bool.
 From GoHls Require Import Model.Mux Proofs.MuxStream Proofs.MuxLift Proofs.MuxWindow Proofs.MuxHistory
   Proofs.MuxPlaylist Proofs.MuxTimes Proofs.MuxPaths
-  Proofs.MuxPartIds Proofs.MuxResolve.
+  Proofs.MuxPartIds Proofs.MuxResolve Proofs.MuxTableConv.
 Import ListNotations.
 Local Open Scope Z_scope.
 
@@ -70,3 +72,8 @@ Theorem c05_listed_uris_resolve : forall c m0 ops si s,
   /\ (st_init s <> None -> lookup (m_paths m) (KInit si) = Some HStatic).
 Proof. exact listed_uris_resolve. Qed.
 Print Assumptions c05_listed_uris_resolve.
+
+Theorem c05_only_listed_uris_resolve : forall c m0 ops k h,
+  start c = Ok m0 -> lookup (m_paths (mux_run m0 ops)) k = Some h -> allowed (mux_run m0 ops) k.
+Proof. exact table_only_lists_retained. Qed.
+Print Assumptions c05_only_listed_uris_resolve.
